@@ -46,12 +46,15 @@ class Engine:
         self.mode = mode
         self.values = dict(values or {})
         self.qtimeout_ms = qtimeout_ms
+        self.fallback_ms = 15000
         if mode == 'sym':
             self.solver = z3.Solver()
             self.solver.set('timeout', qtimeout_ms)
         self.queries = 0
         self.solver_s = 0.0
         self.unknowns = 0
+        self.bad_models = 0
+        self.fallback_decided = 0
         self._begin_path([])
 
     # ------------------------------------------------------------------ path state
@@ -249,29 +252,55 @@ class Engine:
         return seq[self.fork_int(name, 0, len(seq) - 1)]
 
     # ------------------------------------------------------------------ obligations
+    def _valid_model(self, m, extra):
+        """z3 5.1 occasionally answers sat with a model that violates the assertions on mixed int/real non-linear queries
+        (observed on the round-half-even witness of GeometricCredit): never trust a model that does not evaluate to true."""
+        try:
+            for c in list(self.pc) + [extra]:
+                if not z3.is_true(m.eval(c, model_completion=True)):
+                    return False
+        except z3.Z3Exception:
+            return False
+        return True
+
     def _prove(self, ob):
         """returns ('ok'|'cex'|'unknown', model)"""
         ob = z3.simplify(ob)
         if z3.is_true(ob):
             return 'ok', None
-        r = self._check(z3.Not(ob))
+        neg = z3.Not(ob)
+        r = self._check(neg)
         if r == z3.unsat:
             return 'ok', None
         if r == z3.sat:
-            return 'cex', self.solver.model()
-        # second attempt: fresh non-incremental solver (can use nlsat), longer timeout
-        s2 = z3.Solver()
-        s2.set('timeout', max(self.qtimeout_ms * 3, 30000))
-        s2.add(self.pc)
-        s2.add(z3.Not(ob))
+            m = self.solver.model()
+            if self._valid_model(m, neg):
+                return 'cex', m
+            self.bad_models += 1
+        # fallbacks: nlsat tactic (non-incremental), then the z3 4.8.12 binary
         t = time.time()
         self.queries += 1
-        r = s2.check()
+        try:
+            s2 = z3.Tactic('qfnra-nlsat').solver()
+            s2.set('timeout', self.fallback_ms)
+            s2.add(self.pc)
+            s2.add(neg)
+            r = s2.check()
+        except z3.Z3Exception:
+            r = z3.unknown
         self.solver_s += time.time() - t
         if r == z3.unsat:
+            self.fallback_decided += 1
             return 'ok', None
         if r == z3.sat:
-            return 'cex', s2.model()
+            m = s2.model()
+            if self._valid_model(m, neg):
+                return 'cex', m
+        r = external_z3(self.pc + [neg], max(5, self.fallback_ms // 1000))
+        self.queries += 1
+        if r == 'unsat':
+            self.fallback_decided += 1
+            return 'ok', None
         return 'unknown', None
 
     def check(self, label, cond):
@@ -359,6 +388,25 @@ class Engine:
         if r != z3.sat:
             return None
         return self._model_values(s.model())
+
+
+def external_z3(assertions, timeout_s):
+    """decide a conjunction with the system z3 (4.8.12) binary: 'sat' | 'unsat' | 'unknown'"""
+    import subprocess
+    import tempfile
+    s = z3.Solver()
+    s.add(assertions)
+    try:
+        with tempfile.NamedTemporaryFile('w', suffix='.smt2', dir='/var/tmp', delete=True) as f:
+            f.write(s.to_smt2())
+            f.flush()
+            out = subprocess.run(['/usr/bin/z3', '-T:%d' % timeout_s, f.name], capture_output=True, text=True, timeout=timeout_s + 10).stdout
+    except Exception:   # noqa
+        return 'unknown'
+    if '(error' in out:
+        return 'unknown'
+    first = out.strip().split('\n')[0].strip() if out.strip() else ''
+    return first if first in ('sat', 'unsat') else 'unknown'
 
 
 def _as_py(val):
@@ -982,7 +1030,7 @@ class SymInt(SymReal):
         if z3.is_int_value(e):
             return e.as_long()
         lo, hi = self.lo, self.hi
-        if lo is None or hi is None or hi - lo > 64:
+        if lo is None or hi is None or hi - lo > 2048:
             raise Unsupported('concretising an integer without a small declared range')
         for v in range(lo, hi):
             if E.decide(self.ie == v):
